@@ -1001,22 +1001,29 @@ def legacy_read(claim, typ, path):
     return M.read(getattr(claim, typ), path)
 
 
-def check_legacy_bytes(name, data, typ, expect, res, extra=None):
+def check_legacy_bytes(name, data, typ, expect, res, extra=None, soft=None, sig=None):
     """expect: accessor path -> value ('fee.lbc'/'fee.usd'/'fee.btc' as decimal strings)."""
     from decimal import Decimal
     from lbry.schema.claim import Claim
     res.count('evaluations')
     res.count('legacy_claims')
-    rep = {'mode': 'legacy', 'name': name, 'hex': data.hex(), 'type': typ, 'expect': expect, 'extra': extra}
+    rep = {'mode': 'legacy', 'name': name, 'hex': data.hex(), 'type': typ, 'expect': expect, 'extra': extra,
+           'soft': soft, 'sig': sig}
     enc = 'v0-json' if data[:1] == b'{' else 'v1-protobuf'
 
     def bad(kind, what, **kw):
-        res.violation(dict({'object': 'legacy', 'encoding': enc, 'kind': kind}, **kw), f'{name}: {what}', rep)
+        res.violation(dict({'object': 'legacy', 'encoding': enc, 'kind': kind}, **dict(sig or {}, **kw)), f'{name}: {what}', rep)
 
     try:
         claim = Claim.from_bytes(data)
-    except Exception as e:   # noqa
+    except Exception as e:   # noqa - no exception of any type may escape for a document the old schema allowed
+        if soft:     # document that was never valid under the old schema: observed, not demanded
+            res.tally(f'interpretation_only:legacy_document_invalid_under_old_schema:{soft}:{type(e).__name__}')
+            return
         return bad('decode-raises', f'Claim.from_bytes raised {type(e).__name__}: {e}', exc=type(e).__name__)
+    if soft:
+        res.tally(f'interpretation_only:legacy_document_invalid_under_old_schema:{soft}:decodes')
+        return
     if claim.claim_type != typ:
         return bad('claim-type', f'decoded as {claim.claim_type!r}, is a {typ}')
     for path, exp in expect.items():
@@ -1082,6 +1089,91 @@ def generated_v0():
         yield json.dumps(doc).encode(), exp
 
 
+V0_LANG_EXACT = {'en': ['en'], 'English': ['en'], 'ENGLISH': ['en'], 'english': ['en'], 'es-419': ['es-419'],
+                 'zh-Hant-TW': ['zh-Hant-TW'], 'pt-BR': ['pt-BR'], 'en-Latn': ['en-Latn'], 'sr-Latn-RS': ['sr-Latn-RS'],
+                 'en-RU': ['en-RU'], '': []}
+V0_LANG_FREEFORM = ['EN', 'En-US', 'en-us', 'en_US', ' en', 'en ', 'e', 'eng', 'English (US)', 'english-US', 'klingon', 'x-klingon',
+                    'i-klingon', 'en-GB-oed', 'pt-BRA', 'zh-cmn-Hans', 'zh-cmn-Hans-CN', 'en-', '-en', 'en--US', 'en-US-', '-', '--',
+                    'en-Zzzz-ZZ', 'en-Zzzz', 'en-ZZ', 'en-latn', 'en-LATN-US', 'es-41', 'es-4190', 'es-999', 'zh-Hant-TW-x',
+                    'fr-FR-FR', 'de-DE-1996', 'sl-rozaj-biske', 'en-US-u-islamcal', 'en-a-bbb-x-a-ccc', 'a' * 1000, 'en\x00',
+                    'en\n', '\U0001F600', 'en,fr', 'en;fr', 'en fr', 'None', 'null', '0']
+V0_NON_STRINGS = [5, 0, 1.5, True, False, None, ['en'], {'a': 1}]
+V0_TEXT_SHAPES = ['', 'x', ASCII, NONBMP, 'a\x00b\nc', 'z' * 2000, ' leading and trailing ', '{"json": "inside"}', 'None']
+
+
+def hostile_v0():
+    """One free-form field of an otherwise valid old-schema document takes every shape a 2016 publisher (no
+    validation on the text) could have typed.  -> (name, data, expected reads, field, soft)
+    soft = None: the document is valid under the old JSON schema (strings in string fields) - it must decode, no
+    exception of any type, and every other field must read back; an unconvertible language may be dropped.
+    soft = label: the document was never valid (wrong JSON type, unknown currency ...) - outcome tallied."""
+    base = {'ver': '0.0.3', 'title': 'the title', 'author': 'an author', 'license': 'a license', 'license_url': 'https://l.example/',
+            'description': 'a description', 'language': 'en', 'nsfw': False, 'content_type': 'video/mp4',
+            'thumbnail': 'https://t.example/x.png', 'sources': {'lbry_sd_hash': V0_SD},
+            'fee': {'LBC': {'amount': 1.5, 'address': ADDR}}}
+    base_exp = {'title': 'the title', 'author': 'an author', 'license': 'a license', 'license_url': 'https://l.example/',
+                'description': 'a description', 'langtags': ['en'], 'source.media_type': 'video/mp4',
+                'thumbnail.url': 'https://t.example/x.png', 'source.sd_hash': V0_SD, 'tags': [],
+                'fee.currency': 'LBC', 'fee.lbc': '1.5', 'fee.address': ADDR}
+    reads = {'title': 'title', 'author': 'author', 'license': 'license', 'license_url': 'license_url',
+             'description': 'description', 'content_type': 'source.media_type', 'thumbnail': 'thumbnail.url'}
+
+    def emit(field, value, exp_change, soft=None, drop=()):
+        doc = dict(base)
+        variants = [('', doc)]
+        if value is _ABSENT:
+            doc.pop(field)
+        else:
+            doc[field] = value
+        exp = dict(base_exp)
+        exp.update(exp_change)
+        for k in drop:
+            exp.pop(k, None)
+        # the same document without a fee and with nsfw (fields converted before / after the varied one)
+        nofee = dict(doc, nsfw=True)
+        nofee.pop('fee')
+        exp2 = {k: v for k, v in exp.items() if not k.startswith('fee.')}
+        exp2['tags'] = ['mature']
+        for tag, d, e in (('', doc, exp), ('+nofee+nsfw', nofee, exp2)):
+            yield (f'hostile-v0 {field}={value!r:.40}{tag}', json.dumps(d).encode(), e, field, soft)
+
+    for lang, tags in V0_LANG_EXACT.items():
+        yield from emit('language', lang, {'langtags': tags})
+    for lang in V0_LANG_FREEFORM:
+        yield from emit('language', lang, {}, drop=('langtags',))
+    yield from emit('language', _ABSENT, {'langtags': []})
+    for v in V0_NON_STRINGS:
+        yield from emit('language', v, {}, soft='language:' + type(v).__name__, drop=('langtags',))
+    for field, path in reads.items():
+        for t in V0_TEXT_SHAPES:
+            change = {path: t}
+            drop = ()
+            if field == 'content_type' and t == '':
+                change = {path: 'application/octet-stream'}
+            if field == 'thumbnail' and t == '':
+                change, drop = {}, (path,)
+            yield from emit(field, t, change, drop=drop)
+        for v in V0_NON_STRINGS:
+            yield from emit(field, v, {}, soft=f'{field}:{type(v).__name__}', drop=(path,))
+    for cur in ('lbc', 'usd', 'btc', 'EUR', '', 'LBC '):
+        yield from emit('fee', {cur: {'amount': 1, 'address': ADDR}}, {}, soft='fee-currency:' + (cur.strip() or 'empty'),
+                        drop=('fee.currency', 'fee.lbc', 'fee.address'))
+    for amount in (None, 'abc', -1, 1e12, [1]):
+        yield from emit('fee', {'LBC': {'amount': amount, 'address': ADDR}}, {}, soft='fee-amount:' + type(amount).__name__,
+                        drop=('fee.currency', 'fee.lbc', 'fee.address'))
+    for fee in ({}, 'x', 5, []):
+        yield from emit('fee', fee, {}, soft='fee:' + type(fee).__name__, drop=('fee.currency', 'fee.lbc', 'fee.address'))
+    for amount, dec in ((1, '1'), (0, '0'), ('1.5', '1.5'), ('0.29', '0.29'), (10, '10'), (0.5, '0.5'), (21000000, '21000000')):
+        yield from emit('fee', {'LBC': {'amount': amount, 'address': ADDR}}, {'fee.lbc': dec})
+    for ver in ('0.0.1', '0.0.2', '0.0.3', '9.9.9', _ABSENT):
+        yield from emit('ver', ver, {})
+    yield from emit('preview', 'an unknown extra key', {})
+    yield from emit('nsfw', _ABSENT, {})
+
+
+_ABSENT = object()
+
+
 def generated_v1():
     """v1 protobuf claims built with the plain generated legacy message classes, starting from upstream's
     recorded claims (which supply every required field)."""
@@ -1118,7 +1210,15 @@ def generated_v1():
                 old = OldClaim.FromString(fx[base])
                 old.stream.metadata.language = v.number
                 yield (f'{base}+language={v.name}',) + finish(old)
-        for text, nsfw, fee, signed in itertools.product((ASCII, NONBMP, ''), (False, True),
+        try:                # language is optional in the v1 schema: a claim without it decodes without languages
+            old = OldClaim.FromString(fx[base])
+            old.stream.metadata.ClearField('language')
+            name, data, exp, extra = (f'{base}+language absent',) + finish(old)
+            exp['langtags'] = []
+            yield name, data, exp, extra
+        except Exception:   # noqa - required in this build of the schema: not a legacy document
+            pass
+        for text, nsfw, fee, signed in itertools.product((ASCII, NONBMP, '', KIB, 'a\x00b\nc', 'None'), (False, True),
                                                          (None, (1, 15.0), (3, 0.5), (2, 2.25)), (False, True)):
             old = OldClaim.FromString(fx[base])
             m = old.stream.metadata
@@ -1151,6 +1251,16 @@ def check_legacy_all(res):
         res.witness('legacy_fixture_' + c['encoding'])
     for i, (data, exp) in enumerate(generated_v0()):
         check_legacy_bytes(f'generated-v0-{i}', data, 'stream', exp, res)
+    for name, data, exp, field, soft in hostile_v0():
+        check_legacy_bytes(name, data, 'stream', exp, res, soft=soft, sig={'field': field})
+        if field == 'language' and not soft and 'langtags' not in exp:
+            res.witness('legacy_v0_language_the_tag_parser_cannot_consume')
+            try:        # what became of the unconvertible language (any outcome is acceptable)
+                from lbry.schema.claim import Claim
+                got = Claim.from_bytes(data).stream.langtags
+                res.tally('legacy_v0_unconvertible_language:' + ('dropped' if got in ([], ['']) else 'partly_kept'))
+            except Exception:   # noqa - already reported above
+                pass
     for name, data, exp, extra in generated_v1():
         check_legacy_bytes(name, data, 'stream', exp, res, extra)
         if extra.get('signature'):
@@ -1456,7 +1566,11 @@ def run(ctx):
               'lists of <= 3 tags from 5; every Country x 4 location forms, location texts and coordinate boundaries, '
               'all lists of <= 3 from 4 locations; all ordered selections of <= 3 of 6 tags; all lists of <= 3 of 5 '
               'claim ids for collections and featured lists; update() forms; supports (7x6 texts x 4 envelopes); '
-              'purchases (3 ways x 7 ids); legacy: upstream\'s 6 recorded claims + 1080 generated v0 JSON documents + '
+              'purchases (3 ways x 7 ids); legacy: upstream\'s 6 recorded claims + 1080 generated v0 JSON documents + one-field-at-a-time "2016 publisher" '
+              'documents (each with and without fee): language x {11 convertible values, 47 free-form shapes the tag parser '
+              'cannot consume: extra/unknown/empty sub-tags, wrong case, names, separators, 1000 chars, NUL}, 7 text '
+              'fields x 9 string shapes, fee amounts, ver values, unknown keys - all must decode (no exception of any '
+              'type) with every other field intact; wrong JSON types / unknown currencies / malformed fees tallied only + '
               'v1 protobuf claims for every v1 language value and a text/nsfw/fee/signature product. '
               'Histories ("serialisation reflects the live object, whatever its origin"): for every claim type, empty '
               'and fully populated start, 4 envelopes: the object parsed from its bytes - or the same live object after '
@@ -1494,11 +1608,16 @@ def run(ctx):
             'URL grammar = LBRY specification URL section without ?query and *sequence (not part of the SDK type, '
             'as upstream\'s published vectors record); amount_order is compared as an integer (tallied: parsed as str)',
             'legacy re-encoding into the current format is observed (tallied), not demanded',
+            'a legacy claim = a document valid under the old JSON schema (string fields hold strings of any content, fee '
+            'keyed by LBC/BTC/USD with a numeric amount); documents with wrong JSON types, unknown currencies or malformed '
+            'fees were never valid claims: whether and how they are refused is tallied, not demanded; an unconvertible '
+            'language may be dropped or partly kept (tallied)',
         ],
         expected_witnesses=['history_parse_then_edit_signed', 'history_parse_then_edit', 'history_same_then_edit_signed',
                             'live_object_group_with_3_or_more_members', 'signed_envelope_round_trip', 'language_tag_with_alpha_region_starting_with_R',
                             'language_tag_with_numeric_region', 'legacy_fixture_v0-json', 'legacy_fixture_v1-protobuf',
-                            'legacy_v1_signed_claim_decoded', 'url_channel_and_stream', 'url_full_40_hex_claim_id',
+                            'legacy_v1_signed_claim_decoded', 'legacy_v0_language_the_tag_parser_cannot_consume',
+                            'url_channel_and_stream', 'url_full_40_hex_claim_id',
                             'url_with_position', 'url_hash_separator_canonicalised',
                             'url_reference_agrees_with_upstream_vectors'],
     )
@@ -1531,7 +1650,8 @@ def replay(data):
         check_purchase(data['case'], res)
         log.append(f"purchase {data['case']!r}")
     elif mode == 'legacy':
-        check_legacy_bytes(data['name'], bytes.fromhex(data['hex']), data['type'], data['expect'], res, data.get('extra'))
+        check_legacy_bytes(data['name'], bytes.fromhex(data['hex']), data['type'], data['expect'], res, data.get('extra'),
+                           soft=data.get('soft'), sig=data.get('sig'))
         log.append(f"legacy claim {data['name']} ({len(data['hex']) // 2} bytes)")
     elif mode == 'url':
         from refs import lbry_url as R
